@@ -494,7 +494,8 @@ def check_c21(ctx):
     ctx.assumptions = [
         "process restarts (clean drop / kill -9 style _exit) only: machine crashes with lost page cache are not modelled for octopii's vendored engine copy",
         "the node id of every LogId is fixed to 1; entry payloads are Blank or Normal(bytes); membership entries do not occur",
-        "the peer-address rule of OpenRaftNode::new (append only when the address differs, node.rs:150-157) is re-stated in the harness, not compiled",
+        "peer addresses are recorded through OpenRaftNode::persist_peer_addr_if_needed (node.rs:324-338, sliced and compiled over a three-field stand-in for "
+        "OpenRaftNode); the same rule in the node constructor (node.rs:150-157) is not exercised",
         "the log stays below the engine's 10 MiB read budget per batch except in the `big` programs of the thorough tier",
     ]
     finish(ctx, level="proof", trusted_base=[
